@@ -242,21 +242,57 @@ class _SPWorld:
 
         memo = self.memo
 
+        def _key(v):
+            """Memo key of an argument: epochs by their index (provably equal epochs share one), numbers as they are."""
+            if isinstance(v, JD):
+                return SReal(v.k)
+            if isinstance(v, _Tok) and hasattr(v, "jd"):
+                return SReal(v.jd.k)
+            if v is None:
+                return SReal(-1)
+            return v
+
         class JD:
+            """Opaque epoch: whatever the analysed code derives from it (calendar fields, a Julian date rebuilt from fields) is a memoised symbolic
+            function of the epoch, so that state derived from the *start* date and carried into the derivative shows up as a dependence on the split."""
+
             def __init__(self, x):
+                if isinstance(x, JD):
+                    x = x.x
                 self.x = x
                 self.k = memo.epoch(x)
 
+            @property
+            def calendar_date(self):
+                return tuple(memo.get("cal", [SReal(self.k)], (6,)))
+
+            @staticmethod
+            def getJulianDate(*args):
+                return JD(memo.get("jdof", [_key(a) for a in args], ()))
+
+            def __sub__(self, o):
+                return self.x - (o.x if isinstance(o, JD) else o)
+
+            def __rsub__(self, o):
+                return o - self.x
+
+            def __add__(self, o):
+                return self.x + (o.x if isinstance(o, JD) else o)
+
+            __radd__ = __add__
+
         def j2d(jd):
-            return _Tok(jd=jd)
+            if not isinstance(jd, JD):
+                jd = JD(jd)
+            return _Tok(jd=jd, year=memo.get("cal", [SReal(jd.k)], (6,))[0])
 
         class RP:
             @staticmethod
             def build(utc_date, eops=None):
-                return _Tok(dt=utc_date)
+                return _Tok(dt=utc_date, date_time=utc_date, jd=utc_date.jd)
 
-        def rot(jd, red):
-            return memo.get("E", [SReal(jd.k), SReal(red.dt.jd.k)], (3, 3))
+        def rot(jd, red, *extra):
+            return memo.get("E", [SReal(jd.k), SReal(red.dt.jd.k)] + [_key(e) for e in extra], (3, 3))
 
         def pos(name):
             def f(jd):
@@ -304,6 +340,18 @@ def _sp_dynamics(jd0=None, method=None):
         d.init_julian_date = jd0
     if method is not None:
         d._method = method
+    return d
+
+
+def _sp_dynamics_ctor(jd_start):
+    """The real constructor (under whatever shadows are active), so that anything it derives from the start date is part of the run."""
+    from resonaate.dynamics.special_perturbations import SpecialPerturbations
+    from resonaate.scenario.config.geopotential_config import GeopotentialConfig
+    from resonaate.scenario.config.perturbations_config import PerturbationsConfig
+
+    d = SpecialPerturbations(jd_start, GeopotentialConfig(), PerturbationsConfig(third_bodies=SP_CFG["third_bodies"], solar_radiation_pressure=SP_CFG["srp"],
+                                                                                general_relativity=SP_CFG["gr"]), SP_CFG["sat_ratio"])
+    d.finite_thrust = None
     return d
 
 
@@ -399,10 +447,18 @@ def _pins(X, t0, tf, memo=None):
     if memo is not None:
         base = {"E": [[Fraction(3, 5), Fraction(-4, 5), 0], [Fraction(4, 5), Fraction(3, 5), 0], [0, 0, 1]], "sun": [120000000, -80000000, -35000000],
                 "moon": [250000, 260000, 110000], "g": [Fraction(-8, 10 ** 6), Fraction(3, 10 ** 6), Fraction(5, 10 ** 6)], "nu": 1}
+        pyth = [(3, 4, 5), (5, 12, 13), (8, 15, 17), (7, 24, 25), (20, 21, 29), (9, 40, 41)]
+        seen_e = {}
         for n, (key, (_ts, v)) in enumerate(memo.tab.items()):
+            if key[0] not in base:
+                continue  # quantities the code derives from an epoch beyond the modelled providers stay free
             b = np.array(base[key[0]], dtype=object)
             if key[0] in ("g", "nu"):
                 b = b * Fraction(10 + n, 10 + 2 * n)
+            if key[0] == "E":  # distinct rotation-matrix symbols get distinct rotations about the pole
+                vid = _zt(np.asarray(v, dtype=object).ravel()[0]).get_id()
+                a_, b_, c_ = pyth[seen_e.setdefault(vid, len(seen_e)) % len(pyth)]
+                b = np.array([[Fraction(a_, c_), Fraction(-b_, c_), 0], [Fraction(b_, c_), Fraction(a_, c_), 0], [0, 0, 1]], dtype=object)
             for q, val in zip(np.asarray(v, dtype=object).ravel(), np.asarray(b, dtype=object).ravel()):
                 cs.append(_zt(q) == rv(Fraction(val)))
     K = X.shape[1]
@@ -524,31 +580,57 @@ def o1_batch(dynname, Ks, nsteps):
 # ------------------------------------------------------------------------------------------------------------------------
 # O3: epoch bookkeeping of the perturbed derivative
 # ------------------------------------------------------------------------------------------------------------------------
-def replay_epoch(d):
-    """Real SpecialPerturbations._differentialEquation on floats: same absolute epoch split differently between start date and elapsed seconds."""
+# (start date, elapsed s, shift s) pairs whose two start dates straddle a calendar seam inside the shipped EOP table: tried, after the model's own
+# values, when the solver says the result can depend on the split through a calendar-derived quantity (an uninterpreted function of the start date)
+SEAMS = [("new year after a leap year", 2459215.5), ("new year before a leap year", 2458849.5), ("leap day", 2458908.5), ("1 March of a leap year", 2458909.5),
+         ("month end", 2458604.5), ("midnight", 2458300.5)]
+
+
+def _epoch_pair(jd0, t, s, x):
     from resonaate.dynamics import special_perturbations as SP
     from resonaate.physics.time.stardate import JulianDate
 
-    x = np.array(d.get("state", X_LEO), dtype=float)
-    jd0, t, s = float(d["jd0"]), float(d["t"]), float(d["s"])
     seen = []
     real_jd = SP.JulianDate
 
-    def spy(v):
-        seen.append(float(v))
-        return real_jd(v)
+    class Spy(real_jd):
+        def __new__(cls, v):
+            seen.append(float(v))
+            return real_jd.__new__(cls, v)
 
-    try:
-        with shadow(SP, JulianDate=spy):
-            a = np.array(_sp_dynamics(JulianDate(jd0))._differentialEquation(t, x.copy()), dtype=float)
-            b = np.array(_sp_dynamics(JulianDate(jd0 + s / 86400))._differentialEquation(t - s, x.copy()), dtype=float)
-    except Exception as e:  # noqa: BLE001
-        return True, {"raised": f"{type(e).__name__}: {e}"[:300]}
+    with shadow(SP, JulianDate=Spy):
+        a = np.array(_sp_dynamics_ctor(JulianDate(jd0))._differentialEquation(t, x.copy()), dtype=float)
+        n = len(seen)
+        b = np.array(_sp_dynamics_ctor(JulianDate(jd0 + s / 86400))._differentialEquation(t - s, x.copy()), dtype=float)
     want = jd0 + t / 86400
-    e_epoch = max(abs(v - want) for v in seen) if seen else float("inf")
+    inside = [v for v in seen[:n] if abs(v - want) < 0.5] or seen[:1]
+    e_epoch = max(abs(v - want) for v in inside) if inside else float("inf")
     # perturbing accelerations change by < 1e-10 of the total per 1e-9 d; anything larger is a different epoch
     e_acc = float(np.abs(a - b).max() / np.abs(a[3:]).max())
-    return (e_epoch > 2e-9 or e_acc > 1e-7), {"epochs passed to JulianDate": seen, "jd0 + t/86400": want, "epoch error (d)": e_epoch, "relative acceleration difference": e_acc}
+    return (e_epoch > 2e-9 or e_acc > 1e-7), {"jd0": jd0, "t": t, "s": s, "epochs passed to JulianDate": seen[:6], "jd0 + t/86400": want, "epoch error (d)": e_epoch,
+                                              "relative acceleration difference": e_acc}
+
+
+def replay_epoch(d):
+    """Real SpecialPerturbations (real constructor per start date) on floats: same absolute epoch split differently between start date and elapsed seconds."""
+    x = np.array(d.get("state", X_LEO), dtype=float)
+    cands = [("model", float(d["jd0"]), float(d["t"]), float(d["s"]))]
+    if d.get("seams", True):
+        cands += [(name, seam - 0.25, 8 * 3600.0, 7 * 3600.0) for name, seam in SEAMS]
+    tried = []
+    for name, jd0, t, s in cands:
+        try:
+            bad, det = _epoch_pair(jd0, t, s, x)
+        except Exception as e:  # noqa: BLE001
+            if name == "model" and "EOP" not in f"{type(e).__name__}{e}":
+                return True, {"raised": f"{type(e).__name__}: {e}"[:300]}
+            tried.append({"candidate": name, "raised": f"{type(e).__name__}: {e}"[:120]})
+            continue
+        det["candidate"] = name
+        if bad:
+            return True, det
+        tried.append({"candidate": name, "relative acceleration difference": det["relative acceleration difference"], "epoch error (d)": det["epoch error (d)"]})
+    return False, {"tried": tried}
 
 
 def o3_epoch(rep):
@@ -564,9 +646,9 @@ def o3_epoch(rep):
             ivp = SolveIvpContract(steps=(1,), max_calls=4)
             memo = _Memo()
             with shadow(CEL, solve_ivp=ivp, spacing=ivp.spacing, max=sym_max), _SPWorld(memo):
-                a = _sp_dynamics(jd0).propagate(t0, tf, X)
+                a = _sp_dynamics_ctor(jd0).propagate(t0, tf, X)
                 n_first = len(memo.asked)
-                b = _sp_dynamics(jd0 + s / 86400).propagate(t0 - s, tf - s, X)
+                b = _sp_dynamics_ctor(jd0 + s / 86400).propagate(t0 - s, tf - s, X)
             cons = p.constraints()
 
             def inputs(m, X=X, t0=t0, jd0=jd0, s=s):
@@ -875,6 +957,8 @@ def _pins_distinct(memo):
         flat = np.asarray(v, dtype=object).ravel()
         vid = _zt(flat[0]).get_id()
         if vid in seen:
+            continue
+        if key[0] not in base:
             continue
         n = len(seen)
         seen.add(vid)
@@ -1265,6 +1349,18 @@ def replay_raises(d):
     return exc is not None, {"raised": exc}
 
 
+def replay_raises_or_deviates(d):
+    """The real code raises on the candidate, or (when the exception was only the proxies') the real run deviates from the independent reference."""
+    bad, detail = replay_raises(d)
+    if bad:
+        return bad, detail
+    bad, detail = replay_loop(d)
+    if bad:
+        detail = dict(detail)
+        detail["note"] = "symbolic execution could not follow the code on this path; the candidate point of the path was judged on the real code against the independent reference"
+    return bad, detail
+
+
 # ---- zones -----------------------------------------------------------------------------------------------------------
 def _zone_cond(ti, grid, z):
     """Zone of an event time relative to the grid times: 'lt' before the first, 'gt' after the last, 'at<k>' exactly on grid[k], 'in<k>' strictly between grid[k], grid[k+1]."""
@@ -1340,8 +1436,18 @@ def _handle_exception(rep, label, r, d, finding_regions=None):
     import traceback
 
     rep.note(f"{label} raised: {''.join(traceback.format_exception(r.exc))[-500:]}")
-    rep.prove(f"{label}: no-exception [{type(r.exc).__name__}]", z3.BoolVal(False), r.constraints, timeout_ms=60000, inputs=lambda m: _times_from_model(m, d, "raises"), replay=replay_raises,
-              regions=finding_regions, sample="the propagation does not raise inside the bounds")
+    # The candidate is drawn as a *generic* point of the path (times with a fractional part, when the path allows it): if the real code does not raise
+    # there, the exception came from a construct the proxies cannot follow (a conversion to a C double, say) - the candidate is then judged on the
+    # real code against the independent reference (replay_loop); only a reproduced deviation is reported, anything else stays a harness error.
+    cons = list(r.constraints)
+    names = list(d["times"]) + [e[k] for e in d.get("events", []) for k in ("t", "ts", "te") if k in e]
+    generic = [z3.And(z3.Real(n) - z3.ToReal(z3.ToInt(z3.Real(n))) >= rv(0.3), z3.Real(n) - z3.ToReal(z3.ToInt(z3.Real(n))) <= rv(0.45)) for n in names]
+    from symx.core import solve
+
+    if solve(cons + generic, 20000).status == "sat":
+        cons = cons + generic
+    rep.prove(f"{label}: no-exception [{type(r.exc).__name__}]", z3.BoolVal(False), cons, timeout_ms=60000, inputs=lambda m: _times_from_model(m, d, "raises-or-deviates"),
+              replay=replay_raises_or_deviates, regions=finding_regions, sample="the propagation does not raise inside the bounds")
 
 
 def _times_from_model(m, d, tag):
@@ -1721,7 +1827,7 @@ def o4_kepler(rep):
 # ------------------------------------------------------------------------------------------------------------------------
 def replay_dispatch(d):
     """`./check C03 --replay <file>`: the replay that belongs to the item that produced the inputs."""
-    return {"batch": replay_batch, "epoch": replay_epoch, "loop": replay_loop, "hang": replay_hang, "raises": replay_raises, "noevent": replay_noevent,
+    return {"batch": replay_batch, "epoch": replay_epoch, "loop": replay_loop, "hang": replay_hang, "raises": replay_raises, "raises-or-deviates": replay_raises_or_deviates, "noevent": replay_noevent,
             "kepler": replay_kepler, "factory": replay_factory, "reuse": replay_reuse}[d.get("_replay", "loop")](d)
 
 
